@@ -110,7 +110,7 @@ def step (st : St) (w : List String) : St × String :=
       let b := if getCellValueM sh ms c r = ['v'] then 1 else 0
       let ms' := getMergeCellsState ms
       let a := if getCellValueM sh ms' c r = ['v'] then 1 else 0
-      (st, s!"ok {b} {ms'.length} {a}")
+      (st, s!"ok {b} {(getMergeCellsResult ms).length} {a}")
     | _, _, _ => (st, "bad-op")
   | "sst" :: items =>
     -- shared string items `p:<hex>` (plain) / `r:<hex>:<hex>` (two runs); a row of cells t="s"
